@@ -201,6 +201,21 @@ Proof.
   - intros f Hin. apply Hf. apply filter_In in Hin. destruct Hin as [Hin _]. apply filter_In in Hin. tauto.
 Qed.
 
+(* the same with the fuel hypothesis for the attributes the loop goes through only *)
+Theorem detailed_errors_weak rc :
+  (forall f, In f (filter (@f_init V) (filter (included V opt ov) fs)) -> fetch V opt ov hs (dict_obj d) f <> OutOfFuel) ->
+  field_errs V opt ov hs d (filter (@f_init V) (filter (included V opt ov) fs)) ++ forbidden_entry <> [] ->
+  tpl_detailed V K opt ov hs rc fs (dict_obj d)
+  = Err (EClassVal (t_cl opt) (field_errs V opt ov hs d (filter (@f_init V) (filter (included V opt ov) fs)) ++ forbidden_entry)).
+Proof.
+  intros Hf Hne. unfold tpl_detailed. rewrite det_loop_exact by exact Hf.
+  cbn [bind app]. unfold forbidden_entry in *. destruct (t_forbid opt).
+  - cbn [dict_obj o_keys bind]. destruct (unknown_keys V opt ov fs (keys d)) as [|u us]; cbn [bind].
+    + rewrite app_nil_r in *. destruct (field_errs _ _ _ _ _ _); [contradiction | reflexivity].
+    + destruct (field_errs _ _ _ _ _ _ ++ _) eqn:E; [apply app_eq_nil in E; destruct E; discriminate | reflexivity].
+  - cbn [bind]. rewrite app_nil_r in *. destruct (field_errs _ _ _ _ _ _); [contradiction | reflexivity].
+Qed.
+
 End ClassGroup.
 
 (* ---------- transform_error over such groups ---------- *)
